@@ -26,6 +26,7 @@ func NewWithInitial[T any](v T) *Topic[T] {
 type Topic[T any] struct {
 	mu          sync.Mutex
 	subscribers map[subscriptionID]chan<- T
+	closing     map[subscriptionID]<-chan struct{} // closed when the subscriber starts closing
 	lastID      subscriptionID
 	last        T
 	hasLast     bool
@@ -39,9 +40,14 @@ func (t *Topic[T]) Publish(v T) {
 
 	t.last = v
 	t.hasLast = true
-	for _, ch := range t.subscribers {
+	for id, ch := range t.subscribers {
 		verifhook.Yield("topic.publish.send", "")
-		ch <- v // blocking
+		select {
+		case ch <- v: // blocking
+		case <-t.closing[id]:
+			// The subscriber is closing its subscription and waiting for our
+			// lock to unsubscribe. It will not receive, do not wait for it.
+		}
 	}
 }
 
@@ -78,6 +84,11 @@ func (t *Topic[T]) Subscribe(sendLast bool) *Subscription[T] {
 	id := t.lastID
 
 	t.subscribers[id] = ch
+	done := make(chan struct{})
+	if t.closing == nil {
+		t.closing = make(map[subscriptionID]<-chan struct{})
+	}
+	t.closing[id] = done
 
 	if sendLast && t.hasLast {
 		// Will not block, because the channel is buffered and nothing
@@ -89,6 +100,7 @@ func (t *Topic[T]) Subscribe(sendLast bool) *Subscription[T] {
 		id:    id,
 		topic: t,
 		ch:    ch,
+		done:  done,
 	}
 	return sub
 }
@@ -123,4 +135,5 @@ func (t *Topic[T]) unsubscribeID(id subscriptionID) {
 	}
 	close(ch)
 	delete(t.subscribers, id)
+	delete(t.closing, id)
 }
